@@ -260,6 +260,71 @@ Definition sp_new (c : cfg) (st : astate) (nx : N) (dst : nat) (bk : bkind) : op
   | _ => Some (ok_res [] [] (set_a dst (Some {| a_bk := bk; a_xs := [] |}) st) nx)
   end.
 
+(** ** splice with an honest replacement iterator of owned values
+
+    [v.splice(range, items)] where [items] yields exactly [n] fresh values of the vector's element type and
+    reports that number as its size hint ([claimed = n], no wrong-typed item); the values are created before
+    the call (identities [nx .. nx+n-1]).  The iterator is consumed by any pattern, like drain; when it is
+    dropped the un-yielded rest of the range is destroyed in order, then the [n] replacement values are
+    pulled ([ENext]) and moved in - Vec::splice's result.  When the result does not fit a fixed capacity
+    (or its length is not representable) the drop panics: the replacement values are destroyed, once each,
+    the vector keeps the elements in front of the range.  A leaked iterator leaks the replacement values too.
+    An invalid range panics before the vector is touched and destroys the replacement values. *)
+Definition sp_splice (c : cfg) (st : astate) (nx : N) (v : nat) (sb eb : bound) (pat : list (bool * sink)) (f : fin)
+           (rk : rkind) (n : N) (wrong_at : option N) (claimed : N) : option sres :=
+  match rk, wrong_at with
+  | RLazy _, _ | _, Some _ => None
+  | _, None =>
+    if negb (claimed =? n) then None else
+    match get_a v st with
+    | None => None
+    | Some a =>
+      let xs := a_xs a in
+      let ts := next_ids c nx (N.to_nat n) in
+      let nx' := nx + n in
+      let item_drops := if c_dg c then map EDrop ts else [] in
+      match range_of_bounds usize_max (N.of_nat (length xs)) (to_sb sb) (to_sb eb) with
+      | None => Some (panic_res (range_panic sb eb) item_drops st nx')
+      | Some (s, e) =>
+          let s := N.to_nat s in let e := N.to_nat e in
+          match sp_walk xs pat s e with
+          | None => None
+          | Some (rets, ds, i, j) =>
+              let yielded := flat_map (drop_ev c) ds in
+              let kept := set_a v (Some (with_xs a (firstn s xs))) st in
+              match f with
+              | FinForget => Some (ok_res (N.of_nat (e - s) :: rets) yielded kept nx')
+              | FinDrop =>
+                  let new_len := N.of_nat s + n + N.of_nat (length xs - e) in
+                  if usize_max <? new_len then Some (panic_res POverflow (yielded ++ item_drops) kept nx')
+                  else if (match acap c (a_bk a) with Some cap => cap <? new_len | None => false end)
+                  then Some (panic_res PCapacity (yielded ++ item_drops) kept nx')
+                  else Some (ok_res (N.of_nat (e - s) :: rets)
+                                    (yielded ++ (if c_dg c then map EDrop (firstn (j - i) (skipn i xs)) else [])
+                                             ++ repeat ENext (N.to_nat n))
+                                    (set_a v (Some (with_xs a (VecSpec.sp_splice s e ts xs))) st) nx')
+              end
+          end
+      end
+    end
+  end.
+
+(** the fragment: by-value or boxed replacement values, all of the right type, honest size hint *)
+Lemma sp_splice_inv c st nx v sb eb pat f rk n wrong_at claimed r :
+  sp_splice c st nx v sb eb pat f rk n wrong_at claimed = Some r ->
+  (rk = RWrap \/ rk = RBox) /\ wrong_at = None /\ claimed = n /\
+  sp_splice c st nx v sb eb pat f RWrap n None n = Some r.
+Proof.
+  unfold sp_splice. intros H.
+  destruct wrong_at as [x|]; [destruct rk; discriminate|].
+  assert (Hrk : rk = RWrap \/ rk = RBox) by (destruct rk; [left|right|discriminate]; reflexivity).
+  assert (Hc : claimed = n).
+  { destruct (N.eqb_spec claimed n) as [E|NE]; [exact E|]. destruct rk; discriminate. }
+  subst claimed. rewrite N.eqb_refl in *. cbn [negb] in *.
+  split; [exact Hrk|]. split; [reflexivity|]. split; [reflexivity|].
+  destruct Hrk as [-> | ->]; exact H.
+Qed.
+
 Definition spec_step (c : cfg) (st : astate) (nx : N) (o : op) : option sres :=
   match o with
   | ONew dst bk => sp_new c st nx dst bk
@@ -299,6 +364,7 @@ Definition spec_step (c : cfg) (st : astate) (nx : N) (o : op) : option sres :=
       | Some a => Some (ok_res [] (if c_dg c then map EDrop (a_xs a) else []) (set_a v None st) nx)
       end
   | ODrain _ v sb eb pat f => sp_drain c st nx v sb eb pat f
+  | OSplice _ v sb eb pat f rk n wrong_at claimed => sp_splice c st nx v sb eb pat f rk n wrong_at claimed
   | OReserve v n => sp_capacity c st nx v (Some n) false
   | OReserveExact v n => sp_capacity c st nx v (Some n) true
   | OShrinkToFit v => sp_capacity c st nx v None false
